@@ -37,6 +37,19 @@ theorem drain_before_disconnected (s : St) (op : Op) (r : Nat) (ht : recvTarget 
   obtain ⟨x, hx, _, hb, _⟩ := recv_disc_cases s op r ht hres
   simp [bufOf, hx, hb]
 
+/-- (iv)/(vi) dropping a receiver handle (either flavour) whose `close()` already succeeded gives up
+nothing a second time: `receiver_count` and the topic lists are untouched -/
+theorem drop_after_close_keeps_count (s : St) (r : Nat) (x : Rx) (hx : rxLive s r = some x) (hc : x.closed = true) :
+    (step s (.rDrop r)).1.rcount = s.rcount ∧ (step s (.rDrop r)).1.regs = s.regs := by
+  simp [step, rDrop, hx, hc]
+
+/-- regression of the fixed double decrement: async `close()` then drop, a second receiver stays
+reachable for `send` -/
+theorem async_close_then_drop_ok :
+    results (init 2 .async) [Op.rClone 0, .subscribe 1 1, .rClose 0, .rDrop 0, .send 0 1 1, .tryRecv 1]
+      = [.handle 1, .unit, .ok, .unit, .ok, .msg 1 1] := by
+  decide
+
 /-! ### false on the model and on the code -/
 
 /-- F3 (topic): `try_recv` and `recv` hand out values on a receiver handle whose `close()`
@@ -44,21 +57,6 @@ succeeded; the second `close` correctly reports `CloseError` -/
 theorem fails_F3_recv_on_closed_receiver :
     results (init 2 .sync) [Op.subscribe 0 1, .send 0 1 5, .send 0 1 6, .rClose 0, .rClose 0, .tryRecv 0, .recv 0]
       = [.unit, .ok, .ok, .ok, .closeErr, .msg 1 5, .msg 1 6] := by
-  decide
-
-/-- async receiver: `close()` then drop decrements `receiver_count` twice — `send` is refused
-with Closed although receiver 1 is alive and subscribed -/
-theorem fails_async_close_then_drop :
-    results (init 2 .async) [Op.rClone 0, .subscribe 1 1, .rClose 0, .rDrop 0, .send 0 1 1, .tryRecv 1]
-      = [.handle 1, .unit, .ok, .unit, .closed, .empty] := by
-  decide
-
-/-- same on the last receiver: the count wraps below zero, `is_closed()` of the sender turns
-false again and `send` returns Ok with no receiver left -/
-theorem fails_async_close_then_drop_wraps :
-    results (init 2 .async) [Op.rClose 0, .sIsClosed 0, .rDrop 0, .sIsClosed 0, .send 0 1 1]
-      = [.ok, .bool true, .unit, .bool false, .ok] ∧
-    (exec (init 2 .async) [Op.rClose 0, .rDrop 0]).rcount = usizeMax := by
   decide
 
 /-- `to_async`/`to_sync` of a receiver reset its `closed` flag: `is_closed()` turns false, the
